@@ -18,11 +18,21 @@ Family `wo` (gen_wo_case): programs with WRITE-ONLY relations (accumulators / ou
 aggregate mentions) that carry initial rows, and rules that derive some of those initial rows again; half of them with
 some write-only relations declared `lattice` (the initial row of a key is derived again with a lower / equal / higher
 value).  Packagings run_wo_init / runpar_wo_init / run_part_init initialise only those relations in ascent_run! /
-ascent_run_par! (nothing initialised is ever looked up by a rule body, but head updates look every row up)."""
+ascent_run_par! (nothing initialised is ever looked up by a rule body, but head updates look every row up).
+
+Family `attrs` (gen/c09_attrs.py): programs with program-level INNER attributes — `#![ds(P)]` with P = eqrel / trrel / trrel_uf (every
+relation without its own #[ds] is a closure relation: the programs of the C10 / C11 / C12 generators with the provider moved to the
+program level), `#![measure_rule_times]`, `#![generate_run_timeout]`, `#![inter_rule_parallelism]`, in random order — x include_source!
+placement (pasted / the VERY FIRST item: part, whole program, two adjacent, first + later / middle / end) x with and without a struct
+signature x the four macros.  Each attribute has an observable whose expected value comes from the logical program and the attribute
+set: the relations of the explicit-closure program (specification oracle), run_timeout(Duration::MAX) exists and returns true,
+scc_times_summary() has its per-rule part.  The token shape of every packaging is also evaluated in Pack/PackAttrModel.v (the include
+path of parse_ascent_program with its parse state; theorem c09_include_is_splice_with_attributes): the configuration the model compiles
+the program with must be that of the attribute set."""
 import json
 import os
 
-from .. import c09_pack, dl, engine_tie, gen_dl, lib, prog
+from .. import c09_attrs, c09_pack, dl, engine_tie, gen_dl, lib, prog
 
 PROP = "C09"
 PROP_FILE = "Props/C09.v"
@@ -314,6 +324,8 @@ def compare_job(r, job, res, feature, pred=None):
 def replay_case(path):
     rp = json.load(open(path))
     cs = rp["case"]
+    if cs.get("family") == "attrs":
+        return c09_attrs.replay(cs)
     c = case_from_json(dict(prog=cs["prog"], inputs=cs["inputs"], wo_family=cs.get("wo_family")), "c09_replay")
     results = engine_tie.run(PROP, [c], tag="c09r", spec="strat")
     r = results[0]
@@ -362,6 +374,10 @@ def tie(tier, seed, replay):
                     programs_with_write_only_relations=sum(1 for r in results if c09_pack.write_only_rels(r["case"]["prog"])),
                     scripts_run_with_only_write_only_relations_initialised=0, scripts_tied_to_ascent_run_code_model=0)
     evals = sum(len(r["case"]["inputs"]) for r in results)
+    # family `attrs`: program-level inner attributes x include placement x signature x macro (gen/c09_attrs.py)
+    am, attr_stats, aevals, asamples = c09_attrs.run_family(tier, seed, lambda js: c09_pack.build_and_run("c09a", js))
+    mism += am
+    evals += aevals
     for feats, tag in (((), "c09p"), (("segment-codegen",), "c09ps")):
         impl = {}
         for i in range(0, len(jobs), 480):
@@ -389,14 +405,16 @@ def tie(tier, seed, replay):
     for j in jobs[:40]:
         if j["kind"] in ("inc_two", "redecl", "combo", "run_init", "run_wo_init") and len(sample) < 5:
             sample.append(dict(packaging=j["kind"], macro=j["macro"], detail=j["desc"], module=j["src"][j["src"].find("}} }") + 4:][:1800]))
-    return dict(evaluations=evals, distinct_nontrivial=len(distinct),
-                rule="random logical programs (1/4 without interpreted functions, 1/2 C01-style, 1/4 stratified with aggregates / negation; plus the family `wo`: programs with initialised WRITE-ONLY relations whose initial rows are derived again, half of them with write-only relations declared `lattice`) x 2 inputs, each rendered as 14-20 packagings (base, ascent_run! / ascent_run_par! with captured locals as initialisers or in rule bodies, only the write-only relations initialised, a random part of the relations initialised, ascent_par!, include_source! start / middle / end / two / adjacent / whole, initialisers via Default, re-declarations, generic signature, all tokens re-spanned to one span by a helper proc macro (alone and with includes), measure_rule_times, generate_run_timeout with run() and run_timeout(MAX), all combined), whole crate built with and without ascent/segment-codegen; every relation compared (set of rows AND number of rows: one row per derivable tuple, one row per key of a lattice) with the specification oracle of the logical program; non-trivial = the logical program derives at least one fact on that input; distinct = distinct (packaging job, script, feature)",
+    sample += asamples
+    return dict(evaluations=evals, distinct_nontrivial=len(distinct) + attr_stats["scripts_where_an_attribute_is_observable"],
+                rule="random logical programs (1/4 without interpreted functions, 1/2 C01-style, 1/4 stratified with aggregates / negation; plus the family `wo`: programs with initialised WRITE-ONLY relations whose initial rows are derived again, half of them with write-only relations declared `lattice`) x 2 inputs, each rendered as 14-20 packagings (base, ascent_run! / ascent_run_par! with captured locals as initialisers or in rule bodies, only the write-only relations initialised, a random part of the relations initialised, ascent_par!, include_source! start / middle / end / two / adjacent / whole, initialisers via Default, re-declarations, generic signature, all tokens re-spanned to one span by a helper proc macro (alone and with includes), measure_rule_times, generate_run_timeout with run() and run_timeout(MAX), all combined), whole crate built with and without ascent/segment-codegen; every relation compared (set of rows AND number of rows: one row per derivable tuple, one row per key of a lattice) with the specification oracle of the logical program; non-trivial = the logical program derives at least one fact on that input; distinct = distinct (packaging job, script, feature).  Family `attrs`: programs with program-level inner attributes (#![ds(eqrel | trrel | trrel_uf | ascent::rel)], measure_rule_times, generate_run_timeout, inter_rule_parallelism) x include placement (pasted, first item: part / all / two adjacent / first + later, middle, end) x signature present / absent x ascent! / ascent_par! / ascent_run! / ascent_run_par!, feature-less build; observables: plain relations (sets + row counts) vs the specification oracle of the explicit-closure program, run_timeout(Duration::MAX) compiles and returns true, per-rule part of scc_times_summary(); non-trivial there = an attribute is observable in the script (measure / timeout present, or the closure reading differs from the plain reading on that input)",
                 samples=sample, distribution=dict(programs=len(results), packaging_jobs=kinds, scripts_agreeing=okc, macros=macros,
                                                   pure_programs=sum(1 for r in results if c09_pack.is_pure(r["case"]["prog"])),
                                                   with_aggregates=sum(1 for r in results if r["case"]["prog"].get("shape") == "stratified"),
-                                                  write_only_family=wo_stats),
+                                                  write_only_family=wo_stats, attrs_family=attr_stats),
                 mismatches=mism,
-                trusted_base=["gen/c09_pack.py renders the packagings (a wrong rendering shows as a false alarm, not as a silent pass: the expected answer comes from the logical program alone)",
+                trusted_base=["family attrs: gen/c09_attrs.py renders the packagings and abstracts each to the token shape of Pack/PackAttrModel.v (attributes, signature, one token per item, includes and sources); the closure semantics of the providers (C10 / C11 / C12's subject) enters through the explicit-closure program given to the specification oracle",
+                              "gen/c09_pack.py renders the packagings (a wrong rendering shows as a false alarm, not as a silent pass: the expected answer comes from the logical program alone)",
                               "FRONT hook + gen/dl.py plan translation + Engine/Eval.v model for the base packaging; specification oracle strat_fix / naive_fix evaluated inside Coq",
                               "rustc, cargo feature resolution, macro_rules expansion and span identity are exercised, not modelled: Pack/PackModel.v states the splice / last-wins / timeout-guard logic on token lists and declaration lists",
                               "Pack/PackModel.v ascent_run_code (initialisers assigned, ONE index build, SCCs) is tied to the generated ascent_run! block on the packagings whose initialisers are the whole input (run_init, run_wo_init of programs fed by fact rules): rows compared with the model's as set + count, through the proved c09_init_is_input; lattice views are compared with the specification only (write-only lattice = one row per key holding the max of the derivable values)"],
